@@ -955,6 +955,7 @@ fn replay_line(ctx: &mut Ctx, shrunk: &mut BTreeMap<String, u32>, line: &str) ->
 	let t: Vec<&str> = line.split(' ').collect();
 	let (target, fmt, comp, set) = match t[0] {
 		"C16v" | "C16p" | "C16m" | "C16t" | "C16d" => return c16::replay_reader_line(ctx, "C01", line),
+		"C01s" => return crate::c01_sparse::replay(ctx, &t),
 		"GTR" | "GTW" => {
 			let root = ctx.scratch.fresh("-getters");
 			let a = crate::c01_getters::answer(&ctx.rt, &root, line, &mut None)?;
@@ -1116,6 +1117,10 @@ pub fn run(args: &Args) {
 				emit_case(&mut ctx, &mut shrunk, t, f, c, &set, "leaves");
 			}
 		}
+	}
+	// sparse tile sets at high zoom levels (child processes with an address-space limit)
+	if !search_run {
+		crate::c01_sparse::run_cases(&mut ctx, args);
 	}
 	ctx.scratch.done();
 	ctx.out.finish();
